@@ -1,6 +1,8 @@
 //! cfdp-verif: runtime monitors for cfdp-rs. One sub-command per property.
 //! usage: cfdp-verif <C01..C20> --tier quick|thorough --seed N --out FILE [--replay CASE]
 mod alloc;
+mod e1;
+mod p_xfer;
 mod fs;
 mod gen;
 mod pure_codec;
@@ -69,6 +71,9 @@ fn main() {
         "C12" => fs::run_c12(&tier, seed, r),
         "C14" => pure_misc::run_c14(&tier, seed, r),
         "C16" => udp::run_c16(&tier, seed, r),
+        "C01" => p_xfer::run_c01(&tier, seed, r),
+        "C02" => p_xfer::run_c02(&tier, seed, r),
+        "C03" => p_xfer::run_c03(&tier, seed, r),
         "C13a" => {
             let mut rep = report::Report::new();
             fs::run_c13a(&mut rep, &tier, seed, r);
@@ -129,6 +134,10 @@ fn main() {
             use std::io::Write;
             f.write_all(s.as_bytes()).expect("write result");
         }
-        None => println!("{}", s),
+        None => {
+            if replay.is_none() {
+                println!("{}", s)
+            }
+        }
     }
 }
